@@ -5,11 +5,23 @@
 (*                   starts on this row (0: continuation row of a wrapped line)            *)
 (*   mode "sbs":     rows = [kl, nm, kr, np]  left / right panel                            *)
 (*   hdr = numbers printed in the hunk headers, in order                                   *)
+(*   every row also carries h (index of the hunk header it follows), and in side-by-side    *)
+(*   mode z (a row of an unchanged line), sl / sr ("first" | "cont" | "none": what each       *)
+(*   panel shows); from these the implementation-shaped model Numbers predicts the numbers    *)
+(*   (drift report, never a verdict)                                                          *)
 EXTENDS Obs_Numbers, TLC, Json, IOUtils
 
 Rec == ndJsonDeserialize(IOEnv.TRACE)
-VARIABLES l, failed
-vars == <<l, failed>>
+VARIABLES l, failed, drift
+vars == <<l, failed, drift>>
+N == INSTANCE Numbers WITH Hack <- {"undo", "pair"}
+ClsOf(e, k) == LET p == Locate(e.hunks, k) IN IF p = <<0, 0>> THEN "zero" ELSE e.hunks[p[1]].cls[p[2]]
+AsRow(e, x) == IF e.mode = "unified" THEN [v |-> "u", l |-> IF x.k = 0 THEN "cont" ELSE "first", r |-> ClsOf(e, x.k)]
+               ELSE [v |-> IF x.z THEN "z" ELSE "pm", l |-> x.sl, r |-> x.sr]
+Drifts(e) == e.code = 0 /\ \E a \in DOMAIN e.hunks :
+   LET rs == SelectSeq(e.rows, LAMBDA x : x.h = a)
+       pred == N!Run([i \in DOMAIN rs |-> AsRow(e, rs[i])], 1, e.hunks[a].so, e.hunks[a].sn)
+   IN \E i \in DOMAIN rs : pred[i].nl # rs[i].nm \/ pred[i].nr # rs[i].np
 
 Known(e, k) == Locate(e.hunks, k) # <<0, 0>>
 
@@ -41,11 +53,12 @@ Why(e) ==
   ELSE LET b == IF e.mode = "unified" THEN UnifiedBad(e) ELSE SbsBad(e) IN
        IF b = {} THEN <<"", 0>> ELSE <<"number", CHOOSE r \in b : \A q \in b : r <= q>>
 
-Init == l = 1 /\ failed = <<>>
+Init == l = 1 /\ failed = <<>> /\ drift = <<>>
 Next == /\ l <= Len(Rec)
         /\ l' = l + 1
         /\ LET e == Rec[l] w == Why(e) IN
-             failed' = IF w[1] = "" THEN failed ELSE Append(failed, [run |-> e.run, why |-> w[1], row |-> w[2]])
+             /\ failed' = IF w[1] = "" THEN failed ELSE Append(failed, [run |-> e.run, why |-> w[1], row |-> w[2]])
+             /\ drift' = IF Drifts(e) THEN Append(drift, e.run) ELSE drift
 Spec == Init /\ [][Next]_vars
-Done == l <= Len(Rec) \/ PrintT(<<"VERDICT", ToJson(failed)>>)
+Done == l <= Len(Rec) \/ (PrintT(<<"DRIFT", ToJson(drift)>>) /\ PrintT(<<"VERDICT", ToJson(failed)>>))
 =============================================================================
